@@ -120,7 +120,16 @@ func TestC18(t *testing.T) {
 	vlib.Run(t, "C18", func(c *vlib.Case) {
 		N := c.Int("nodes", 2, 4)
 		grace := time.Duration(c.Int("graceSec", 2, 8)) * time.Second
-		cl, err := StartCluster(N, false, func(i int, conf *config.Config) { conf.GracePeriod = grace })
+		// half of the clusters protect the upstream port; listeners then hold tokens
+		// without an expiry or expiring long after the scenario
+		withAuth := c.Bool("upstreamAuth")
+		keys := TestKeys()
+		cl, err := StartCluster(N, false, func(i int, conf *config.Config) {
+			conf.GracePeriod = grace
+			if withAuth {
+				conf.Upstream.Auth.HMACSecretKey = string(keys.HMAC)
+			}
+		})
 		if err != nil {
 			c.Harnessf("start cluster: %v", err)
 		}
@@ -131,7 +140,7 @@ func TestC18(t *testing.T) {
 		victim := cl.Nodes[c.Pick("victim", N)]
 		manner := c.OneOf("manner", "shutdown", "kill")
 		phase := c.OneOf("phase", "idle", "connected", "inflight")
-		c.Header["nodes"], c.Header["victim"], c.Header["manner"], c.Header["phase"], c.Header["grace_s"] = N, victim.ID, manner, phase, grace.Seconds()
+		c.Header["nodes"], c.Header["victim"], c.Header["manner"], c.Header["phase"], c.Header["grace_s"], c.Header["upstream_auth"] = N, victim.ID, manner, phase, grace.Seconds(), withAuth
 		K := c.Int("upstreams", 1, 4)
 		type tracked struct {
 			u  *Up
@@ -154,7 +163,15 @@ func TestC18(t *testing.T) {
 			}
 			defer lb.Close()
 			ep := fmt.Sprintf("ep%d", i)
-			u, err := ConnectUpstream(context.Background(), cl.Nodes[pref], fmt.Sprintf("u%d", i), ep, "sdk-http", UpstreamOpts{URL: lb.URL()})
+			opts := UpstreamOpts{URL: lb.URL()}
+			if withAuth {
+				var exp time.Time
+				if c.Bool("tokenWithFarExpiry") {
+					exp = time.Now().Add(time.Hour)
+				}
+				opts.Token = MintHS(keys.HMAC, nil, exp)
+			}
+			u, err := ConnectUpstream(context.Background(), cl.Nodes[pref], fmt.Sprintf("u%d", i), ep, "sdk-http", opts)
 			if err != nil {
 				c.Fatalf("C18: upstream could not connect through the load balancer: %v", err)
 			}
@@ -244,7 +261,7 @@ func TestC18(t *testing.T) {
 			}
 			took := time.Since(t0)
 			c.Stepf("shutdown of %s returned after %v", victim.ID, took)
-			if took > grace+2*time.Second {
+			if took > grace+time.Duration(float64(5*time.Second)*TimeScale()) {
 				c.Fatalf("C18: graceful shutdown of %s took %v, grace period is %v", victim.ID, took, grace)
 			}
 			// survivors that were notified see it as left at once
@@ -269,6 +286,7 @@ func TestC18(t *testing.T) {
 			victim.Srv.VerifKill()
 			c.Stepf("%s killed", victim.ID)
 		}
+		cl.HoldPorts(victim)
 		// recovery: every listener registered on a survivor
 		recovered := func() bool {
 			for _, tu := range ups {
